@@ -35,3 +35,12 @@ REG.schema('AsyncServer', module='async_server', base='BaseServer',
 
 # ghost state (DESIGN 3.1)
 REG.ghost('csprng', List(BYTES))       # byte strings obtained from secrets.token_bytes, in order
+
+# the WSGI environ: a dict whose HTTP_* / CGI keys hold strings (PEP 3333); other keys unknown
+ENV = Ty('dict', STR, ANY, (('HTTP_*', STR), ('wsgi.url_scheme', STR), ('REQUEST_METHOD', STR),
+                            ('QUERY_STRING', STR), ('CONTENT_LENGTH', STR), ('PATH_INFO', STR),
+                            ('wsgi.input', Opaque('Input'))))
+HEADERS = List(SS_T)
+RESP = Ty('rec', ('headers', HEADERS), ('response', BYTES), ('status', STR))
+REG.ghost('sr_log', List(STR))        # status lines passed to start_response (this request)
+REG.ghost('sr_headers', HEADERS)      # header list of the last start_response call
